@@ -29,3 +29,6 @@ func VerifCurve() *math.Curve { return c }
 func VerifSecretParts(us *UnblindingSecret) (*math.G1, []*math.Zr, *math.Zr) {
 	return us.h, us.msg, us.z
 }
+
+// VerifPPParts exposes the public parameters, so that the harness can build algebraically consistent alterations.
+func VerifPPParts(pp *PP) (g, g0 *math.G1, gs []*math.G1, g2 *math.G2) { return pp.g, pp.g0, pp.gs, pp.g2 }
